@@ -99,6 +99,8 @@ impl Item {
 }
 impl Drop for Item {
     fn drop(&mut self) {
+        // the payload must still be the one that was delivered (its storage is not reused or destroyed while the handle lives)
+        if self.valid { let (id2, v2) = self.reread(); if id2 != self.id || !v2 { tracker().problem_pub(format!("changed-under-handle: a live handle to event {} now reads id {id2:#x} (valid pattern: {v2}) -- its storage was destroyed or given to another event", self.id)) } }
         if self.tracked && self.valid { tracker().unhold(self.id) }    // shadow is cleared BEFORE the real release
         crate::sched::point();
         drop(self.h.take());
